@@ -2,8 +2,8 @@ SPECIFICATION Spec
 CONSTANT N = 4
 CONSTANT Gen = FALSE
 CONSTANT KMin = 0
-CONSTANT KMax = 7
-CONSTANT InputPhase = FALSE
+CONSTANT KMax = 5
+CONSTANT InputPhase = TRUE
 CHECK_DEADLOCK FALSE
 INVARIANT TypeOK
 INVARIANT TargetsInv
